@@ -2,13 +2,10 @@ package t0153
 
 type G1 struct {
 	F0x0 int32
-}
-
-type G2 struct {
-	F1x0 *int64
+	F0x1 *int64
 }
 
 type T struct {
-	F0 *G1
-	F1 *G2
+	F0 G1
+	F1 *float32
 }
